@@ -32,6 +32,7 @@ type Result struct {
 	Cell       string         `json:"cell,omitempty"`
 	Sample     any            `json:"sample,omitempty"` // filled for the first few cases only
 	Evals      int64          `json:"evals,omitempty"`
+	ProcFrom   int            `json:"pf,omitempty"` // first case index executed by the worker process that produced this result (history for replays)
 }
 
 func (r *Result) stat(k string, n int) {
